@@ -232,7 +232,7 @@ func run(t *testing.T, sc Scenario, record bool) *detsim.Outcome {
 		if sc.PublicURI {
 			fmt.Fprintf(&hcl, "  publicURI = \"http://public.example.com\"\n")
 		}
-		fmt.Fprintf(&hcl, "  timeout = \"%ds\"\n  required = %v\n  concurrency = 4\n  rateLimit = 1000000000\n}\n", sc.TimeoutS, sc.Required)
+		fmt.Fprintf(&hcl, "  timeout = \"%ds\"\n  required = %v\n  concurrency = 4\n  rateLimit = 2000000000\n}\n", sc.TimeoutS, sc.Required)
 		cfgPath := filepath.Join(dir, ".pint.hcl")
 		if err := os.WriteFile(cfgPath, []byte(hcl.String()), 0o644); err != nil {
 			panic(err)
@@ -255,7 +255,7 @@ func run(t *testing.T, sc Scenario, record bool) *detsim.Outcome {
 					// only query answers have a result type; elsewhere this body is a valid empty success
 					mode = simprom.ModeGarbage
 				}
-				return simprom.Fault{Mode: mode, DelayNs: int64(1000 + req.ID), SplitBody: sc.SplitBodies}
+				return simprom.Fault{Mode: mode, SplitBody: sc.SplitBodies}
 			}
 			idx := i
 			srv.StartCtx(nw, nil, func(k int, op any) (simnet.DialAction, any) {
